@@ -25,6 +25,8 @@ import (
 	"fmt"
 	"math/rand"
 	"sort"
+	"strings"
+	"sync"
 )
 
 type c12Ref struct {
@@ -96,10 +98,23 @@ func (r *c12Ref) apply(op c12Op, owners []int, labels [][]string) {
 	}
 	kind := op.Op
 	if kind == "append" && r.k.Card1 {
+		// has-one / belongs-to: Append of a target replaces the owner's link; an owner that receives NO target keeps its link
 		if total == 0 {
 			return
 		}
-		kind = "replace"
+		for i, o := range owners {
+			if i < len(labels) && len(labels[i]) > 0 {
+				r.removeAll(o, op.Unscoped)
+			}
+		}
+		for i, o := range owners {
+			if i < len(labels) {
+				for _, t := range labels[i] {
+					r.add(o, t)
+				}
+			}
+		}
+		return
 	}
 	switch kind {
 	case "append":
@@ -261,6 +276,22 @@ func c12Flags(s c12Seq, k *c12Kind, ref *c12Ref, op c12Op, labels [][]string, cu
 			}
 		}
 	}
+	// F12g: has-one / belongs-to Append/Replace where an owner's argument is an EMPTY slice: appendToRelations sets nothing and
+	// the owner's in-memory field is saved as it is: Replace keeps the old link, and after a Delete/Clear (the field then holds
+	// a pointer to an EMPTY record) a blank record is created and linked
+	if k.Card1 && (op.Op == "replace" || op.Op == "append") {
+		if s.Owners <= 1 {
+			if op.Empty && (len(op.Vals) == 0 || len(op.Vals[0]) == 0) {
+				flags["F12g-single-valued-empty-slice-argument"] = true
+			}
+		} else {
+			for i := 0; i < s.Owners; i++ {
+				if i >= len(op.Vals) || len(op.Vals[i]) == 0 {
+					flags["F12g-single-valued-empty-slice-argument"] = true
+				}
+			}
+		}
+	}
 	// F12e: has-one/has-many/polymorphic on a slice of owners: a target handed to owner A and (at another step) to owner B
 	if k.Class == "fk" && s.Owners == 2 && (op.Op == "append" || op.Op == "replace") {
 		for i, ls := range labels {
@@ -333,6 +364,11 @@ func c12JudgeF(s c12Seq, obs []c12Obs) (*c12Verdict, int, map[string]bool) {
 		}
 		// 3. Count / Find of the operated value
 		wl := ref.linksOf(owners)
+		if k.Class == "bt" && k.Composite() && len(wl) == 0 && strings.Contains(o.CountE+o.FindE, "IN(...) element has 1 term") {
+			// boundary, not judged (same rendering as Delete() without values, see c12_ck.go): with NO foreign-key value in any
+			// operated owner the composite condition is rendered `(r,z) IN (NULL)`, which SQLite rejects; no link is reported
+			o.CountE, o.FindE = "", ""
+		}
 		if o.CountE != "" || int(o.Count) != len(wl) {
 			// F12b: belongs-to Count over a slice of owners counts the distinct records, not the links
 			if k.Class == "bt" && s.Owners == 2 && o.CountE == "" {
@@ -405,6 +441,7 @@ type c12GenCfg struct {
 	Slice    float64 // probability of a slice of owners
 	MaxLen   int
 	Avoid    float64 // probability that a sequence stays outside the patterns of the listed findings
+	Tie      bool    // correspondence suite: stay outside the patterns the link-store model does not reproduce (F12g; F12c on referenced-column many2many)
 }
 
 // c12GenSeq: operation sequences with new (no key), new with preset key, existing, bystander-owned and duplicate
@@ -437,6 +474,9 @@ func c12GenSeq(rng *rand.Rand, cfg c12GenCfg) c12Seq {
 	created := [][]int{{}, {}} // per owner: keys of the records it created (simulated)
 	for i := 0; i < n; i++ {
 		op := c12Op{Shape: rng.Intn(3)}
+		if rng.Intn(2) == 0 { // state of the argument records: built by hand / loaded / loaded with their own relations / stale fk / key only
+			op.Arg = rng.Intn(c12ArgStates)
+		}
 		switch x := rng.Intn(100); {
 		case x < 35:
 			op.Op = "append"
@@ -449,7 +489,7 @@ func c12GenSeq(rng *rand.Rand, cfg c12GenCfg) c12Seq {
 		}
 		// self-referential belongs-to + Unscoped: inside listed finding F12a, and there the stray `DELETE FROM <owner table>`
 		// is valid SQL on the shared table (the model of F12a is written for distinct tables): not generated
-		if uns && rng.Intn(2) == 0 && !(avoid && k.Class == "bt") && k.Name != "self_belongs_to" {
+		if uns && rng.Intn(2) == 0 && !(avoid && k.Class == "bt") && k.Name != "self_belongs_to" && !(k.Ref && k.Class == "bt") {
 			op.Unscoped = true
 		}
 		nextAtStart := next
@@ -482,6 +522,12 @@ func c12GenSeq(rng *rand.Rand, cfg c12GenCfg) c12Seq {
 			cnt := rng.Intn(4)
 			if k.Card1 {
 				cnt = 1
+				if rng.Intn(8) == 0 && !((avoid || cfg.Tie) && allowNew && s.Owners == 2) { // (slice of owners: an EMPTY SLICE argument for a has-one / belongs-to owner: finding F12g)
+					cnt = 0 // a call that names NO target: Append adds nothing, Delete removes nothing, Replace clears
+				}
+			}
+			if cnt == 0 && !allowNew && k.Composite() {
+				cnt = 1 // boundary, not generated: Delete without values on composite keys renders `(a,b) IN (NULL)`, which SQLite rejects
 			}
 			vs := []int{}
 			for j := 0; j < cnt; j++ {
@@ -508,7 +554,7 @@ func c12GenSeq(rng *rand.Rand, cfg c12GenCfg) c12Seq {
 				}
 				vs = append(vs, key)
 			}
-			if avoid && k.Class == "m2m" {
+			if (avoid || (cfg.Tie && k.Ref)) && k.Class == "m2m" {
 				// keep records without key in front of records with a preset key that does not exist yet
 				sort.SliceStable(vs, func(a, b int) bool { return vs[a] == 0 && vs[b] != 0 })
 			}
@@ -518,6 +564,9 @@ func c12GenSeq(rng *rand.Rand, cfg c12GenCfg) c12Seq {
 		case "append", "replace":
 			for o := 0; o < s.Owners; o++ {
 				vs := genVals(o, true)
+				if len(vs) == 0 && s.Owners == 1 && !((avoid || cfg.Tie) && k.Card1) {
+					op.Empty = rng.Intn(2) == 0 // one empty slice instead of no argument at all (has-one / belongs-to: finding F12g)
+				}
 				op.Vals = append(op.Vals, vs)
 				for _, v := range vs {
 					if v == 0 {
@@ -532,6 +581,9 @@ func c12GenSeq(rng *rand.Rand, cfg c12GenCfg) c12Seq {
 			vs := genVals(-1, false)
 			if k.Card1 && rng.Intn(3) == 0 {
 				vs = append(vs, pick(-1))
+			}
+			if len(vs) == 0 {
+				op.Empty = rng.Intn(2) == 0
 			}
 			op.Vals = [][]int{vs}
 		default:
@@ -578,6 +630,10 @@ func c12Hist(r *Result, pfx string, s c12Seq) {
 			n += "+unscoped"
 		}
 		r.H(pfx+".op", n)
+		r.H(pfx+".argument_state", []string{"fresh", "loaded", "preloaded", "stale-fk", "key-only"}[op.Arg])
+		if len(op.Vals) == 0 || (len(op.Vals) == 1 && len(op.Vals[0]) == 0) {
+			r.H(pfx+".zero_values", fmt.Sprintf("%s/card1=%v/empty_slice=%v", op.Op, c12KindByName(s.Kind).Card1, op.Empty))
+		}
 		for _, vs := range op.Vals {
 			news, dup := 0, false
 			seen := map[int]bool{}
@@ -600,6 +656,7 @@ var c12Probes = map[string]string{
 	"F12b-belongs-to-count-of-shared-target":         `{"kind":"belongs_to","owners":2,"pre":[11],"by":[],"ops":[{"op":"append","vals":[[11],[11]],"shape":0}]}`,
 	"F12c-many2many-returning-backfill":              `{"kind":"many2many","owners":1,"pre":[],"by":[],"ops":[{"op":"append","vals":[[14,0]],"shape":0}]}`,
 	"F12d-many2many-slice-replace-keeps-foreign-new": `{"kind":"many2many","owners":2,"pre":[11,12],"by":[],"ops":[{"op":"append","vals":[[11],[12]],"shape":0},{"op":"replace","vals":[[12],[11]],"shape":0}]}`,
+	"F12g-single-valued-empty-slice-argument": `{"kind":"has_one","owners":1,"pre":[14],"by":[],"own":[14],"ops":[{"op":"replace","vals":[[]],"shape":1,"empty":true}]}`,
 	"F12e-moved-target-stale-in-memory-copy":         `{"kind":"has_many","owners":2,"pre":[11],"by":[],"ops":[{"op":"append","vals":[[11],[]],"shape":1},{"op":"append","vals":[[],[11]],"shape":1}]}`,
 }
 
@@ -636,9 +693,34 @@ func c12SortedProbeIDs() []string {
 	return c12SortedKeys(m)
 }
 
+// c12ExecAll runs independent sequences (each on its own database and its own gorm handle) on a few workers
+func c12ExecAll(seqs []c12Seq) [][]c12Obs {
+	out := make([][]c12Obs, len(seqs))
+	var wg sync.WaitGroup
+	ch := make(chan int)
+	for w := 0; w < 4; w++ {
+		wg.Add(1)
+		go func() {
+			defer wg.Done()
+			for i := range ch {
+				out[i] = c12Exec(seqs[i])
+			}
+		}()
+	}
+	for i := range seqs {
+		ch <- i
+	}
+	close(ch)
+	wg.Wait()
+	return out
+}
+
 func c12E2E(r *Result, s c12Seq, suite string) {
 	c12Trace(s)
-	obs := c12Exec(s)
+	c12E2EObs(r, s, suite, c12Exec(s))
+}
+
+func c12E2EObs(r *Result, s c12Seq, suite string, obs []c12Obs) {
 	v, judged := c12Judge(s, obs)
 	r.H("e2e.judged_steps", fmt.Sprint(judged))
 	for _, o := range obs {
@@ -669,6 +751,7 @@ func c12KnownPattern(s c12Seq, v *c12Verdict) string {
 
 func init() {
 	register("C12", func(r *Result, rng *rand.Rand, tier string) {
+		defer c12Timed("e2e")()
 		n := 2500
 		if tier == "thorough" {
 			n = 55000
@@ -681,14 +764,20 @@ func init() {
 		}
 		cfg := c12GenCfg{Kinds: kinds, Unscoped: 0.35, Slice: 0.4, MaxLen: 8, Avoid: 0.85}
 		c12RunProbes(r)
-		for i := 0; i < n && !expired(); i++ {
-			s := c12GenSeq(rng, cfg)
-			r.Case("e2e-sequences", canon(s), c12SeqNontrivial(s))
-			c12Hist(r, "e2e", s)
-			if i%97 == 0 {
-				r.Sample(map[string]interface{}{"suite": "e2e-sequences", "input": s})
+		for i := 0; i < n && !expired(); {
+			var batch []c12Seq
+			for ; i < n && len(batch) < 250; i++ {
+				s := c12GenSeq(rng, cfg)
+				r.Case("e2e-sequences", canon(s), c12SeqNontrivial(s))
+				c12Hist(r, "e2e", s)
+				if i%97 == 0 {
+					r.Sample(map[string]interface{}{"suite": "e2e-sequences", "input": s})
+				}
+				batch = append(batch, s)
 			}
-			c12E2E(r, s, "e2e-sequences")
+			for j, obs := range c12ExecAll(batch) {
+				c12E2EObs(r, batch[j], "e2e-sequences", obs)
+			}
 		}
 	})
 	replayers["C12/e2e-sequences"] = func(r *Result, input json.RawMessage) {
